@@ -1,5 +1,5 @@
 # Shared tables for tools/mkmanifest.py; per-property claims live in tools/claims.d/CNN.json.
-HOOK_COMMITS = ["447fb50", "2f22383", "9b82fdd", "a5d8a8e"]
+HOOK_COMMITS = ["447fb50", "2f22383", "9b82fdd", "a5d8a8e", "f206caf"]
 
 # properties deliberately not claimed, with the reason (others default to "not built yet")
 NOT_APPLICABLE = {}
